@@ -188,6 +188,17 @@ func (c *FnCtx) enterLoop(bc *blockCtx, li *loopInfo, rr *regionRun) {
 	ghostMods := map[string]bool{}
 	names := map[string]bool{}
 	for _, b := range *backs {
+		for _, w := range b.st.wild {
+			has := false
+			for _, x := range bc.st.wild {
+				if x == w {
+					has = true
+				}
+			}
+			if !has {
+				bc.st.wild = append(bc.st.wild, w)
+			}
+		}
 		for n, v := range b.st.heap {
 			hv, has := hdr.heap[n]
 			if !has {
@@ -272,12 +283,28 @@ func (c *FnCtx) enterLoop(bc *blockCtx, li *loopInfo, rr *regionRun) {
 		if m.whole || len(m.refs) > 6 {
 			c.heapHavoc(bc.st, m.name, srt)
 			c.note(fmt.Sprintf("loop %d: heap array %s havoced as a whole", li.ord, m.name))
-			continue
+		} else {
+			for _, r := range m.refs {
+				inner := strings.TrimSuffix(strings.TrimPrefix(srt, "(Array Int "), ")")
+				f := c.sc.fresh("h."+m.name, inner)
+				c.heapStore(bc.st, m.name, srt, r, f)
+			}
 		}
-		for _, r := range m.refs {
-			inner := strings.TrimSuffix(strings.TrimPrefix(srt, "(Array Int "), ")")
-			f := c.sc.fresh("h."+m.name, inner)
-			c.heapStore(bc.st, m.name, srt, r, f)
+		// the function's frame condition is an implicit loop invariant (checked at every back edge)
+		if c.spec != nil && c.dry == 0 && bc.fr == c.top {
+			nv := c.heapGet(bc.st, m.name, srt)
+			if f, ok := c.frameFormula(bc.fr, m.name, nv, c.entryTargets(bc.fr, c.spec), "r!f", "k!f"); ok {
+				c.sc.assert("(forall ((r!f Int) (k!f Int)) " + f + ")")
+				dup := false
+				for _, x := range li.wholeNames {
+					if x == m.name {
+						dup = true
+					}
+				}
+				if !dup {
+					li.wholeNames = append(li.wholeNames, m.name)
+				}
+			}
 		}
 	}
 	if modAlloc {
@@ -293,6 +320,13 @@ func (c *FnCtx) enterLoop(bc *blockCtx, li *loopInfo, rr *regionRun) {
 	for _, k := range gks {
 		if old, ok := bc.st.ghost[k]; ok {
 			bc.st.ghost[k] = c.havocLike(bc.st, old, "hg."+k)
+			if strings.HasPrefix(k, "$ev.") {
+				c.sc.assert("(>= " + bc.st.ghost[k].T + " " + old.T + ")")
+			}
+		} else if strings.HasPrefix(k, "$ev.") {
+			f := c.sc.fresh("hg."+k, "Int")
+			c.sc.assert("(>= " + f + " 0)")
+			bc.st.ghost[k] = mkInt(f, nil)
 		}
 	}
 	// 5. assume invariants
@@ -359,6 +393,16 @@ func (c *FnCtx) backEdge(bc *blockCtx, li *loopInfo, cond string, rr *regionRun)
 			if now != was {
 				r := c.sc.fresh("lock.r", "Int")
 				c.oblige("lock", lbl+":balanced:"+n, cond, "(= (select "+now+" "+r+") (select "+was+" "+r+"))", c.eng.posOf(firstPos(li.header)), "locks held at the loop head are the same on every iteration", c.lockProps())
+			}
+		}
+	}
+	if c.spec != nil && bc.fr == c.top {
+		for _, n := range li.wholeNames {
+			now := c.heapGet(bc.st, n, c.heapSorts[n])
+			r := c.sc.fresh("frame.r", "Int")
+			k := c.sc.fresh("frame.k", "Int")
+			if f, ok := c.frameFormula(bc.fr, n, now, c.entryTargets(bc.fr, c.spec), r, k); ok {
+				c.oblige(lbl+":frame", n, cond, f, c.spec.Pos, "frame (implicit loop invariant): only declared locations of "+n+" change", nil)
 			}
 		}
 	}
